@@ -61,25 +61,26 @@ type RawLink struct {
 
 // DirCase is one re-executable scenario of the directory family.
 type DirCase struct {
-	Fam      string    `json:"fam"`
-	ID       string    `json:"id"`
-	Builder  string    `json:"builder"` // dir | sharded | quick | boxo | raw
-	Fanout   int       `json:"fanout"`
-	Universe []string  `json:"universe"` // names by id (1-based)
-	Entries  []int     `json:"entries"`  // name ids in the order given to the builder
-	Links    []int     `json:"links"`    // target id per entry (parallel to Entries)
-	Hist     [][]any   `json:"hist"`     // boxo: set/remove/reload history over name ids
-	Raw      []RawLink `json:"raw"`      // raw: hand-assembled link list
-	RawType  int       `json:"rawtype"`  // raw: 1 = UnixFS Directory data, -1 = no Data field
-	Open     string    `json:"open"`     // reify | preload
-	Missing  []int     `json:"missing"`
-	FailAt   int       `json:"failat"`
-	NotFound bool      `json:"notfound"`
-	Mode     string    `json:"mode"`
-	Script   [][]any   `json:"script"`
-	MixV0    bool      `json:"mixv0"`
-	Timeout  bool      `json:"timeout"` // injected load errors report themselves as timeouts
-	ErrKind  string    `json:"errkind"` // injected error kind that wins over both: eofwrap | unexpectedeof
+	Fam      string           `json:"fam"`
+	ID       string           `json:"id"`
+	Builder  string           `json:"builder"` // dir | sharded | quick | boxo | raw
+	Fanout   int              `json:"fanout"`
+	Universe []string         `json:"universe"` // names by id (1-based)
+	Entries  []int            `json:"entries"`  // name ids in the order given to the builder
+	Links    []int            `json:"links"`    // target id per entry (parallel to Entries)
+	Hist     [][]any          `json:"hist"`     // boxo: set/remove/reload history over name ids
+	Raw      []RawLink        `json:"raw"`      // raw: hand-assembled link list
+	RawType  int              `json:"rawtype"`  // raw: 1 = UnixFS Directory data, -1 = no Data field
+	Open     string           `json:"open"`     // reify | preload
+	Missing  []int            `json:"missing"`
+	FailAt   int              `json:"failat"`
+	NotFound bool             `json:"notfound"`
+	Mode     string           `json:"mode"`
+	Script   [][]any          `json:"script"`
+	MixV0    bool             `json:"mixv0"`
+	Timeout  bool             `json:"timeout"` // injected load errors report themselves as timeouts
+	ErrKind  string           `json:"errkind"` // injected error kind that wins over both: eofwrap | unexpectedeof
+	LS       *ipld.LinkSystem `json:"-"`
 	// SizeBase > 0: entry i is declared with cumulative size SizeBase+i instead of its target's length
 	SizeBase int64 `json:"sizebase"`
 	// EmptyShard: the sharded builder's root additionally links (at its lowest unused bucket) to a child shard that holds nothing
@@ -93,6 +94,7 @@ const nTargets = 4
 
 func putTargets(st *Store) []cid.Cid {
 	var out []cid.Cid
+	defer func() { st.targets = out }()
 	for j := 0; j < nTargets; j++ {
 		b := []byte(fmt.Sprintf("target-block-%d", j))
 		if j == 0 {
@@ -206,7 +208,10 @@ func injectEmptyShard(st *Store, root cid.Cid) (cid.Cid, uint64, error) {
 
 // buildDir builds the directory of a case; returns root cid, returned size.
 func buildDir(st *Store, dc *DirCase, targets []cid.Cid) (cid.Cid, uint64, error) {
-	ls := st.LinkSystem()
+	ls := dc.LS // the link system of the surrounding build, when there is one
+	if ls == nil {
+		ls = st.LinkSystem()
+	}
 	switch dc.Builder {
 	case "dir", "sharded":
 		ents, err := entryLinks(dc, targets, st)
